@@ -6,6 +6,7 @@ import RuxModel.Drv.Chain
 import RuxModel.Drv.Bind
 import RuxModel.Drv.Writer
 import RuxModel.Drv.Render
+import RuxModel.Drv.Static
 /-
   Line-protocol driver: `driver <engine>` reads op lines on stdin and answers one line per op.
   Lines starting with `#` are echoed (they separate cases and carry comments).
@@ -33,7 +34,9 @@ def engines : List (String × Engine) := [
   ("chain", chainEngine),
   ("bind", bindEngine),
   ("writer", writerEngine),
-  ("render", renderEngine)
+  ("render", renderEngine),
+  ("clean", cleanEngine),
+  ("static", staticEngine)
 ]
 
 def main (args : List String) : IO UInt32 := do
